@@ -233,6 +233,9 @@ class C05(Prop):
                 yield ("ITER " + hx(f + f[:-cut]), "special-checksum-truncated", True)
         for total, f in big_cases(r)[::2]:
             yield ("BIGSCAN %d %s" % (total, hx(f)), "gigabyte-buffer", True)
+        for s in preamble_neighbours(r):
+            yield ("SCAN " + hx(s), "preamble-neighbour-bytes", True)
+            yield ("ITER " + hx(s), "preamble-neighbour-bytes", True)
         for s in rejected_then_short(r):
             yield ("SCAN " + hx(s), "rejected-then-short-frame", True)
             yield ("ITER " + hx(s), "rejected-then-short-frame", True)
@@ -303,6 +306,10 @@ class C06(Prop):
                 ops.append("a" + hx(p))
                 ops += ["s"] * r.choice([0, 0, 1, 1, 2, 3])
             yield ("SCHED " + "|".join(ops), "schedule", len(parts) >= 2)
+        for s in preamble_neighbours(r)[::4]:
+            f = mk_frame(payload_for(r, 3, 1005))
+            yield ("FEED " + hx(s) + "|" + hx(f), "preamble-neighbour-bytes", True)
+            yield ("SCHED a" + hx(s) + "|s|s|a" + hx(f) + "|s", "preamble-neighbour-bytes", True)
         for s in overlap_cases(r)[::3]:
             cuts = sorted(set(r.randrange(0, len(s) + 1) for _ in range(r.randrange(1, 4))))
             parts = [s[a:b] for a, b in zip([0] + cuts, cuts + [len(s)])]
